@@ -346,6 +346,209 @@ theorem hp_plain_minimiser_exists_unique (obs : Fin n → Bool) (y : Fin n → K
   intro σ hσ
   exact huniq σ ⟨⟨fun i => i.elim0, fun i => i.elim0⟩, fun ρ _ _ => hσ ρ⟩
 
+/-! ### converse: dependent constraints make the system singular -/
+
+omit [LinearOrder K] [IsStrictOrderedRing K] in
+/-- **Converse of `hp_bordered_nonsingular`**: if the constraint rows are linearly dependent (`Cᵀμ = 0` for some `μ ≠ 0`)
+the bordered matrix is singular, whatever the data, `λ` and the observation pattern. -/
+theorem hp_singular_of_dependent (obs : Fin n → Bool) (lam : K) (lw : Fin kl → Fin n) (cw : Fin kc → Fin n)
+    (μ : Fin kl ⊕ Fin kc → K) (hμ : μ ≠ 0) (h : (Cmat lw cw)ᵀ *ᵥ μ = 0) :
+    ¬ IsUnit (hpF obs lam lw cw).det := by
+  intro hu
+  have hinj := Matrix.mulVec_injective_iff_isUnit.2 ((Matrix.isUnit_iff_isUnit_det _).2 hu)
+  have h0 : hpF obs lam lw cw *ᵥ Sum.elim (0 : Fin n → K) μ = Sum.elim (0 : Fin n → K) (0 : Fin kl ⊕ Fin kc → K) := by
+    unfold hpF
+    rw [bordered_iff]
+    exact ⟨by rw [Matrix.mulVec_zero, zero_add, h], Matrix.mulVec_zero _⟩
+  have hz : Sum.elim (0 : Fin n → K) (0 : Fin kl ⊕ Fin kc → K) = 0 := by funext r; cases r <;> rfl
+  have h1 : hpF obs lam lw cw *ᵥ Sum.elim (0 : Fin n → K) μ = hpF obs lam lw cw *ᵥ 0 := by
+    rw [h0, hz, Matrix.mulVec_zero]
+  have h2 := hinj h1
+  apply hμ
+  funext r
+  have := congrFun h2 (Sum.inr r)
+  simpa using this
+
+omit [LinearOrder K] [IsStrictOrderedRing K] in
+/-- two level constraints at the same period are dependent -/
+theorem dependent_of_duplicate_level (lw : Fin kl → Fin n) (cw : Fin kc → Fin n) (i i' : Fin kl) (hne : i ≠ i')
+    (hdup : lw i = lw i') :
+    ∃ μ : Fin kl ⊕ Fin kc → K, μ ≠ 0 ∧ (Cmat lw cw)ᵀ *ᵥ μ = 0 := by
+  refine ⟨fun r => match r with
+    | Sum.inl a => (if a = i then 1 else 0) - (if a = i' then 1 else 0)
+    | Sum.inr _ => 0, ?_, ?_⟩
+  · intro h
+    have := congrFun h (Sum.inl i)
+    simp [hne] at this
+  · funext j
+    rw [Cmat_transpose_mulVec]
+    have hb : ∀ m, betaOf (K := K) cw (fun r : Fin kl ⊕ Fin kc => match r with
+        | Sum.inl a => (if a = i then 1 else 0) - (if a = i' then 1 else 0)
+        | Sum.inr _ => 0) m = 0 := by
+      intro m; unfold betaOf; simp
+    rw [hb, hb]
+    unfold alphaOf
+    simp only [Pi.zero_apply, add_zero, sub_zero]
+    have : ∀ a : Fin kl, (if (lw a).val = j.val then ((if a = i then (1 : K) else 0) - (if a = i' then 1 else 0)) else 0)
+        = (if a = i then (if (lw i).val = j.val then 1 else 0) else 0) - (if a = i' then (if (lw i').val = j.val then 1 else 0) else 0) := by
+      intro a
+      by_cases h1 : a = i
+      · have h2 : a ≠ i' := fun h => hne (h1.symm.trans h)
+        subst h1; simp [h2]
+      · by_cases h2 : a = i'
+        · subst h2; simp [h1]; split_ifs <;> simp
+        · simp [h1, h2]
+    simp only [this, Finset.sum_sub_distrib, Finset.sum_ite_eq', Finset.mem_univ, if_true, hdup, sub_self]
+
+omit [LinearOrder K] [IsStrictOrderedRing K] in
+/-- two change constraints at the same period are dependent -/
+theorem dependent_of_duplicate_change (lw : Fin kl → Fin n) (cw : Fin kc → Fin n) (k k' : Fin kc) (hne : k ≠ k')
+    (hdup : cw k = cw k') :
+    ∃ μ : Fin kl ⊕ Fin kc → K, μ ≠ 0 ∧ (Cmat lw cw)ᵀ *ᵥ μ = 0 := by
+  refine ⟨fun r => match r with
+    | Sum.inl _ => 0
+    | Sum.inr a => (if a = k then 1 else 0) - (if a = k' then 1 else 0), ?_, ?_⟩
+  · intro h
+    have := congrFun h (Sum.inr k)
+    simp [hne] at this
+  · funext j
+    rw [Cmat_transpose_mulVec]
+    have ha : ∀ m, alphaOf (K := K) lw (fun r : Fin kl ⊕ Fin kc => match r with
+        | Sum.inl _ => 0
+        | Sum.inr a => (if a = k then 1 else 0) - (if a = k' then 1 else 0)) m = 0 := by
+      intro m; unfold alphaOf; simp
+    have hb : ∀ m, betaOf (K := K) cw (fun r : Fin kl ⊕ Fin kc => match r with
+        | Sum.inl _ => 0
+        | Sum.inr a => (if a = k then 1 else 0) - (if a = k' then 1 else 0)) m = 0 := by
+      intro m
+      unfold betaOf
+      have : ∀ a : Fin kc, (if (cw a).val = m then ((if a = k then (1 : K) else 0) - (if a = k' then 1 else 0)) else 0)
+          = (if a = k then (if (cw k).val = m then 1 else 0) else 0) - (if a = k' then (if (cw k').val = m then 1 else 0) else 0) := by
+        intro a
+        by_cases h1 : a = k
+        · have h2 : a ≠ k' := fun h => hne (h1.symm.trans h)
+          subst h1; simp [h2]
+        · by_cases h2 : a = k'
+          · subst h2; simp [h1]; split_ifs <;> simp
+          · simp [h1, h2]
+      simp only [this, Finset.sum_sub_distrib, Finset.sum_ite_eq', Finset.mem_univ, if_true, hdup, sub_self]
+    rw [ha, hb, hb]; simp
+
+omit [LinearOrder K] [IsStrictOrderedRing K] in
+/-- **a level–changes–level cycle is dependent**: level constraints at periods `p < q` together with a change constraint at
+every period `p+1, …, q` (`kf j` is the one at `j`) — the excluded configuration of `hp_independent_constraints` — admit
+`μ = e_{level p} − e_{level q} + Σ_j e_{change j}` with `Cᵀμ = 0`. -/
+theorem dependent_of_cycle (lw : Fin kl → Fin n) (cw : Fin kc → Fin n) (i i' : Fin kl)
+    (hpq : (lw i).val < (lw i').val) (kf : Nat → Fin kc)
+    (hkf : ∀ j, (lw i).val < j → j ≤ (lw i').val → (cw (kf j)).val = j) :
+    ∃ μ : Fin kl ⊕ Fin kc → K, μ ≠ 0 ∧ (Cmat lw cw)ᵀ *ᵥ μ = 0 := by
+  have hne : i ≠ i' := fun h => by rw [h] at hpq; exact lt_irrefl _ hpq
+  let μ : Fin kl ⊕ Fin kc → K := fun r => match r with
+    | Sum.inl a => (if a = i then 1 else 0) - (if a = i' then 1 else 0)
+    | Sum.inr k => if (lw i).val < (cw k).val ∧ (cw k).val ≤ (lw i').val ∧ k = kf (cw k).val then 1 else 0
+  refine ⟨μ, ?_, ?_⟩
+  · intro h
+    have := congrFun h (Sum.inl i)
+    simp [μ, hne] at this
+  · have ha : ∀ m, alphaOf lw μ m = (if (lw i).val = m then 1 else 0) - (if (lw i').val = m then 1 else 0) := by
+      intro m
+      unfold alphaOf
+      have : ∀ a : Fin kl, (if (lw a).val = m then μ (Sum.inl a) else 0)
+          = (if a = i then (if (lw i).val = m then (1 : K) else 0) else 0) - (if a = i' then (if (lw i').val = m then 1 else 0) else 0) := by
+        intro a
+        simp only [μ]
+        by_cases h1 : a = i
+        · have h2 : a ≠ i' := fun h => hne (h1.symm.trans h)
+          subst h1; simp [h2]
+        · by_cases h2 : a = i'
+          · subst h2; simp [h1]; split_ifs <;> simp
+          · simp [h1, h2]
+      simp only [this, Finset.sum_sub_distrib, Finset.sum_ite_eq', Finset.mem_univ, if_true]
+    have hb : ∀ m, betaOf cw μ m = (if (lw i).val < m ∧ m ≤ (lw i').val then 1 else 0) := by
+      intro m
+      unfold betaOf
+      by_cases hm : (lw i).val < m ∧ m ≤ (lw i').val
+      · rw [if_pos hm, Finset.sum_eq_single (kf m)]
+        · have hk := hkf m hm.1 hm.2
+          rw [if_pos hk]
+          simp only [μ]
+          rw [if_pos]
+          refine ⟨by rw [hk]; exact hm.1, by rw [hk]; exact hm.2, by rw [hk]⟩
+        · intro k _ hk
+          by_cases hc : (cw k).val = m
+          · rw [if_pos hc]
+            simp only [μ]
+            rw [if_neg]
+            rintro ⟨_, _, h3⟩
+            rw [hc] at h3
+            exact hk h3
+          · rw [if_neg hc]
+        · intro h; exact absurd (Finset.mem_univ _) h
+      · rw [if_neg hm]
+        refine Finset.sum_eq_zero (fun k _ => ?_)
+        by_cases hc : (cw k).val = m
+        · rw [if_pos hc]
+          simp only [μ]
+          rw [if_neg]
+          rintro ⟨h1, h2, _⟩
+          rw [hc] at h1 h2
+          exact hm ⟨h1, h2⟩
+        · rw [if_neg hc]
+    funext j
+    rw [Cmat_transpose_mulVec, ha, hb, hb]
+    simp only [Pi.zero_apply]
+    split_ifs <;> first | (exfalso; omega) | ring1
+
+/-- **Non-singularity characterised**: for `λ > 0`, two observations and change positions `≥ 1`, the bordered system
+matrix is non-singular **iff** the constraints are independent in the combinatorial sense: distinct level positions, distinct
+change positions, and no two level positions joined by change constraints at every period in between. -/
+theorem hp_nonsingular_iff_independent (obs : Fin n → Bool) (lam : K) (hlam : 0 < lam)
+    (s t : Fin n) (hst : s ≠ t) (hs : obs s = true) (ht : obs t = true)
+    (lw : Fin kl → Fin n) (cw : Fin kc → Fin n) (hcw : ∀ k, 0 < (cw k).val) :
+    IsUnit (hpF obs lam lw cw).det ↔
+      (Function.Injective lw ∧ Function.Injective cw ∧
+        ∀ i i', (lw i).val < (lw i').val → ∃ j, (lw i).val < j ∧ j ≤ (lw i').val ∧ ∀ k, (cw k).val ≠ j) := by
+  constructor
+  · intro hu
+    refine ⟨?_, ?_, ?_⟩
+    · intro i i' h
+      by_contra hne
+      obtain ⟨μ, hμ, hd⟩ := dependent_of_duplicate_level (K := K) lw cw i i' hne h
+      exact hp_singular_of_dependent obs lam lw cw μ hμ hd hu
+    · intro k k' h
+      by_contra hne
+      obtain ⟨μ, hμ, hd⟩ := dependent_of_duplicate_change (K := K) lw cw k k' hne h
+      exact hp_singular_of_dependent obs lam lw cw μ hμ hd hu
+    · intro i i' hpq
+      by_contra hcon
+      push Not at hcon
+      have hall : ∀ j, (lw i).val < j → j ≤ (lw i').val → ∃ k, (cw k).val = j := hcon
+      obtain ⟨k0, _⟩ := hall (lw i').val hpq le_rfl
+      classical
+      let kf : Nat → Fin kc := fun j => if h : ∃ k, (cw k).val = j then Classical.choose h else k0
+      have hkf : ∀ j, (lw i).val < j → j ≤ (lw i').val → (cw (kf j)).val = j := by
+        intro j h1 h2
+        have hex := hall j h1 h2
+        simp only [kf, dif_pos hex]
+        exact Classical.choose_spec hex
+      obtain ⟨μ, hμ, hd⟩ := dependent_of_cycle (K := K) lw cw i i' hpq kf hkf
+      exact hp_singular_of_dependent obs lam lw cw μ hμ hd hu
+  · rintro ⟨h1, h2, h3⟩
+    exact hp_bordered_nonsingular obs lam hlam s t hst hs ht lw cw (hp_independent_constraints lw cw h1 h2 hcw h3)
+
+/-- non-vacuity (independent side): `n = 4`, all observed, one level at period 3 and one change at period 1 — non-singular -/
+example : IsUnit (hpF (K := ℚ) (fun _ : Fin 4 => true) 1 (![3] : Fin 1 → Fin 4) (![1] : Fin 1 → Fin 4)).det := by
+  refine (hp_nonsingular_iff_independent (fun _ => true) 1 one_pos 0 1 (by decide) rfl rfl _ _ (fun k => ?_)).2
+    ⟨fun a b _ => Subsingleton.elim a b, fun a b _ => Subsingleton.elim a b, fun i i' h => ?_⟩
+  · fin_cases k; simp
+  · exfalso; fin_cases i; fin_cases i'; simp at h
+
+/-- non-vacuity (dependent side): two level constraints at the same period make the system singular -/
+example : ¬ IsUnit (hpF (K := ℚ) (fun _ : Fin 4 => true) 1 (![2, 2] : Fin 2 → Fin 4) (Fin.elim0 : Fin 0 → Fin 4)).det := by
+  obtain ⟨μ, hμ, hd⟩ := dependent_of_duplicate_level (K := ℚ) (![2, 2] : Fin 2 → Fin 4) (Fin.elim0 : Fin 0 → Fin 4) 0 1
+    (by decide) rfl
+  exact hp_singular_of_dependent _ _ _ _ μ hμ hd
+
 end Existence
 
 /-! ## Part B — the executable model (`IrisVerif.HP`, exact rationals) -/
